@@ -117,6 +117,36 @@ build!(ret_type_wrapped, {
         fn delta(&self, v: u64) -> Result<u64, ()>;
     }
 });
+build!(err_type_same_size, {
+    #[cglue_trait]
+    pub trait Iface {
+        fn alpha(&self, x: u32) -> u32;
+        fn pick<'a>(&'a self, s: &'a [u8], idx: u32) -> &'a [u8];
+        fn gamma(&mut self, v: Option<u32>) -> Result<u32, i8>;
+        #[int_result]
+        fn delta(&self, v: u64) -> Result<u64, ()>;
+    }
+});
+build!(opt_type_same_size, {
+    #[cglue_trait]
+    pub trait Iface {
+        fn alpha(&self, x: u32) -> u32;
+        fn pick<'a>(&'a self, s: &'a [u8], idx: u32) -> &'a [u8];
+        fn gamma(&mut self, v: Option<i32>) -> Result<u32, u8>;
+        #[int_result]
+        fn delta(&self, v: u64) -> Result<u64, ()>;
+    }
+});
+build!(ok_type_same_size, {
+    #[cglue_trait]
+    pub trait Iface {
+        fn alpha(&self, x: u32) -> u32;
+        fn pick<'a>(&'a self, s: &'a [u8], idx: u32) -> &'a [u8];
+        fn gamma(&mut self, v: Option<u32>) -> Result<i32, u8>;
+        #[int_result]
+        fn delta(&self, v: u64) -> Result<u64, ()>;
+    }
+});
 build!(arg_type_wrapped, {
     #[cglue_trait]
     pub trait Iface {
@@ -477,6 +507,9 @@ fn main() {
     case("ret_type_lifetimed", false, iface!(base), iface!(ret_type_lifetimed));
     case("ret_type_wrapped", false, iface!(base), iface!(ret_type_wrapped));
     case("arg_type_wrapped", false, iface!(base), iface!(arg_type_wrapped));
+    case("err_type_same_size", false, iface!(base), iface!(err_type_same_size));
+    case("ok_type_same_size", false, iface!(base), iface!(ok_type_same_size));
+    case("opt_type_same_size", false, iface!(base), iface!(opt_type_same_size));
     case("receiver_plain", false, iface!(base), iface!(receiver_plain));
     case("receiver_lifetimed", false, iface!(base), iface!(receiver_lifetimed));
     case("toggle_int_result", false, iface!(base), iface!(toggle_int_result));
